@@ -2,4 +2,4 @@
    Only ExtrOcamlBasic is used: Z / positive / nat stay extracted inductives; no Extract Constant. *)
 Require Import ExtrOcamlBasic.
 From Klepto Require Import CacheCore Keys Rounding Validate DictSpec Backends DirStep SqlCrash.
-Extraction "model.ml" step cstep init_state dispatch bind keygen key_of py_eqb round_call validate_ok bind_ok dstep sql_step dir_step sql_stmts.
+Extraction "model.ml" step cstep c_set_archive init_state dispatch bind keygen key_of py_eqb round_call validate_ok bind_ok dstep sql_step dir_step sql_stmts.
